@@ -31,7 +31,7 @@ def seg0(nwords):
 def blocks(thorough):
     """The enumerated space as blocks; inside a block the product (skeleton x word deviations x positions) is
     complete.  segs=(min,max) segments, words = max words per segment (command word included), wsel = which
-    per-segment word-count tuples ('all' | 'le2' | 'uniform'), kf = max word/segment-feature deviations from the
+    per-segment word-count tuples ('all' | 'eq2' = two words everywhere | 'uniform3' = three words everywhere), kf = max word/segment-feature deviations from the
     all-`a` chain (kfmin..kf), kp = max position deviations (kpmin..kp), rich = the larger position catalogue,
     exec = which agreeing pairs are also executed ('slice' | 'none' | 'all'); pairs with differing trees always are."""
     d = dict(kfmin=0, kpmin=0, wsel="all", rich=False, exec="slice")
